@@ -68,8 +68,12 @@ def run_case(case):
 
         rank = int(rng.integers(1, 5))
         shape = tuple(int(x) for x in rng.integers(1, 6, rank))
-        dt = ["float", "int", "ties"][int(rng.integers(0, 3))]
-        if dt == "float":
+        dt = ["float", "int", "ties", "ninf"][int(rng.integers(0, 4))]
+        if dt == "ninf":
+            # finite values mixed with -inf; sometimes every element is -inf (then the first
+            # UNMASKED position attains the masked maximum -inf)
+            a = np.where(rng.random(shape) < (1.0 if rng.random() < 0.3 else 0.5), -np.inf, rng.integers(0, 3, shape).astype(float))
+        elif dt == "float":
             a = rng.normal(size=shape)
         elif dt == "int":
             a = rng.integers(-50, 50, shape)
